@@ -15,6 +15,9 @@ CLAIMS = {
  "C06": dict(design="5/C06", tech=E1 + "; unbounded symbolic int parameters and matchees",
    text="Matcher expression trees (all depth<=1 trees over the full alphabet, all 3964 depth-2 trees over a reduced alphabet; sequence, dict and structure combinators over leaf matchers) are built from selector opcodes; leaf parameters and matchees are unbounded symbolic ints, so each explored path covers every integer satisfying its path condition; verdict is compared with a denotational evaluator, plus determinism and non-modification.",
    note="Ints are wrapped in an opaque ordered value (constant repr) so that message formatting does not fork on digits; regex/doctest/filesystem/warnings leaves are outside the claim."),
+ "C07": dict(design="5/C07", tech=E1 + " over finite class-representative alphabets",
+   text="text_repr -> ast.literal_eval round trip for every str (12 character classes) / bytes (8 classes) of length <=3 (quick) / <=4 (thorough) x 3 multiline modes; every stock matcher in testtools.matchers.__all__ (read at run time) x constructor variants x per-type matchee alphabets x verbose x annotation: str(), describe(), get_details(), str(MismatchError), assertThat/assert_that raise iff mismatch, expectThat never raises and fails the test iff mismatch; detail-name collisions. All selectors exhausted by the solver.",
+   note="repr and codecs are CPython's (finite alphabets only); filesystem leaves use a prepared scratch directory; FileContains on directories excluded."),
  "C16": dict(design="5/C16", tech=E1 + "; symbolic byte payloads, chunk sizes and offsets",
    text="Chunk reader on symbolic data bytes/chunk sizes/offsets (all values within length bound), real-file reader, chunk-independent decoding for every pair of cut positions over a class-representative alphabet, Content equality on symbolic bytes, ContentType MIME round trip over a token/value alphabet, snapshot semantics; exhaustive within the bounds.",
    note="Stream modelled by ModelStream (io.BytesIO contract); codecs are CPython's (text is a finite alphabet); open known finding F9 (charset containing a comma) is excluded by class."),
